@@ -477,8 +477,13 @@ def gen_script(rng, max_ops, profile):
             q = rng.pick(stat)
             live_cmd = '%s 0 #%d %d %d' % ('assign' if is_static(p_) else 'assignid', b, p_, value())
             stale_cmd = rng.pick(['destroynow 0 #%d' % a, 'remove 0 #%d %d' % (a, q), 'destroy 0 #%d' % a])
+            if rng.chance(1, 2):
+                lines.append('update')      # the world version moves on: a stamp written through the stale handle would show
             lines.append('lock')
             lines += [live_cmd, stale_cmd] if rng.chance(1, 2) else [stale_cmd, live_cmd]
+            if cs and rng.chance(2, 3):
+                # guarded calls through the stale handle while locked: the new owner of the id must not notice
+                lines.insert(len(lines) - rng.below(3), '%s #%d %d' % (rng.pick(['markdirty', 'getmut', 'getconst', 'has']), a, rng.pick(cs)))
             lines.append('unlock')
             st.comps[b] = closure(set(st.comps[b]) | {p_})
         elif choice == 'jobdo':
